@@ -86,11 +86,14 @@ func (u *Unit) relevantAxioms() string {
 func (u *Unit) incrementalScript() string {
 	var b strings.Builder
 	b.WriteString(u.Preamble)
-	b.WriteString(u.relevantAxioms())
 	fmt.Fprintf(&b, "(set-option :timeout %d)\n", u.timeoutMs)
 	sc := u.Script
 	oi := 0
+	axioms := u.relevantAxioms()
 	for i := 0; i <= len(sc.lines); i++ {
+		if i == sc.axiomPos {
+			b.WriteString(axioms)
+		}
 		for oi < len(sc.obls) && sc.obls[oi].Index == i {
 			o := sc.obls[oi]
 			b.WriteString("(push 1)\n")
@@ -117,9 +120,12 @@ func (u *Unit) incrementalScript() string {
 func (u *Unit) standaloneScript(oi int, model bool) string {
 	var b strings.Builder
 	b.WriteString(u.Preamble)
-	b.WriteString(u.relevantAxioms())
 	o := u.Script.obls[oi]
+	axioms := u.relevantAxioms()
 	for i := 0; i < o.Index; i++ {
+		if i == u.Script.axiomPos {
+			b.WriteString(axioms)
+		}
 		b.WriteString(u.Script.lines[i])
 		b.WriteString("\n")
 	}
@@ -155,6 +161,9 @@ func runSolver(s solverSpec, file string, timeoutMs int) (string, float64, error
 
 // dischargeUnit runs the incremental script on the primary solver, then races the
 // others on whatever is left.
+// skipRace: obligations known not to discharge (known findings, tolerated undecided ones); they are not raced.
+var skipRace = map[string]bool{}
+
 func (u *Unit) discharge(outDir string, timeoutMs int, thorough bool) {
 	if u.Script == nil || len(u.Script.obls) == 0 {
 		return
@@ -190,7 +199,7 @@ func (u *Unit) discharge(outDir string, timeoutMs int, thorough bool) {
 		} else {
 			need = o.Result != "unsat"
 		}
-		if !need {
+		if !need || skipRace[o.Name] {
 			continue
 		}
 		wg.Add(1)
